@@ -101,10 +101,10 @@ func init() {
 	// ---- client
 	mutant("nextid-plus-one", "cli-stream-id", "conn.go", "atomic.StoreUint32(&c.nextID, id+2)", "atomic.StoreUint32(&c.nextID, id+1)")
 	mutant("queue-after-write", "cli-register-before-write", "conn.go", "	atomic.StoreUint32(&ctx.streamID, id)\n	c.queueReq(id, ctx)\n", "	atomic.StoreUint32(&ctx.streamID, id)\n	defer c.queueReq(id, ctx)\n")
-	mutant("finish-wrong-stream", "cli-response-key", "conn.go", "		c.finish(r, fr.Stream(), err)", "		c.finish(r, c.closeRef, err)")
+	mutant("finish-wrong-stream", "cli-response-key", "conn.go", "	c.finish(r, fr.Stream(), err)\n\n	return stop", "	c.finish(r, c.closeRef, err)\n\n	return stop")
 	mutant("open-stream-after-goaway", "no-stream-after-goaway", "conn.go", "	if atomic.LoadUint32(&c.goAway) != 0 {\n		return false\n	}\n", "")
 	mutant("retryable-after-write", "retryable-pre-wire", "conn.go", "		release()\n		c.deletePending(id)\n\n		return err", "		release()\n		c.deletePending(id)\n\n		return ErrConnectionClosed")
-	mutant("dequeue-without-resolve", "removal-implies-resolve", "conn.go", "		err := c.writeRequest(ctx)\n			if err != nil {\n				ctx.resolve(err)\n", "		err := c.writeRequest(ctx)\n			if err != nil {\n")
+	mutant("dequeue-without-resolve", "removal-implies-resolve", "conn.go", "				err = c.writeRequest(ctx)\n			}\n\n			if err != nil {\n				ctx.resolve(err)\n", "				err = c.writeRequest(ctx)\n			}\n\n			if err != nil {\n")
 	mutant("resolve-blocking", "resolve-protocol", "client.go", "		select {\n		case ctx.Err <- err:\n		default:\n		}", "		ctx.Err <- err")
 	mutant("drain-before-close", "resolve-protocol", "conn.go", "	first, _ := c.shut()\n\n	for _, ctx := range c.takeAllReqs() {\n		ctx.resolve(lastErr)\n	}\n", "	for _, ctx := range c.takeAllReqs() {\n		ctx.resolve(lastErr)\n	}\n\n	first, _ := c.shut()\n")
 	// ---- pools / ownership / totality
@@ -153,7 +153,7 @@ func init() {
 	mutant("stray-continuation-forwarded", "continuation-sequencing", "serverConn.go", "		} else if fr.Type() == FrameContinuation {\n			sc.writeGoAway(0, ProtocolError, \"unexpected CONTINUATION frame\")\n			ReleaseFrameHeader(fr)\n			return errConnClosed\n		} else if", "		} else if")
 	mutant("even-stream-id-accepted", "read-loop-connection-errors", "serverConn.go", "	if fr.Stream()&1 == 0 {\n		return NewGoAwayError(ProtocolError, \"invalid stream id\")\n	}\n", "")
 	mutant("zero-window-update-ignored", "read-loop-connection-errors", "serverConn.go", "			if win == 0 {\n				sc.writeGoAway(0, ProtocolError, \"window increment of 0\")\n				ReleaseFrameHeader(fr)\n				return errConnClosed\n			}\n", "			_ = win\n")
-	mutant("resolve-before-drop", "client-finish-order", "conn.go", "	if c.deletePending(stream) && err == nil {\n		c.cancelStream(stream, StreamCanceled)\n	}\n\n	r.markFinished()\n	r.resolve(err)", "	r.markFinished()\n	r.resolve(err)\n\n	if c.deletePending(stream) && err == nil {\n		c.cancelStream(stream, StreamCanceled)\n	}")
+	mutant("resolve-before-drop", "client-finish-order", "conn.go", "	if c.takeReq(stream) {\n		atomic.AddInt32(&c.openStreams, -1)\n	}\n\n	r.markFinished()\n	r.resolve(err)", "	r.markFinished()\n	r.resolve(err)\n\n	if c.takeReq(stream) {\n		atomic.AddInt32(&c.openStreams, -1)\n	}")
 	mutant("ctx-always-recycled", "client-finish-order", "client.go", "	if reuse {\n		releaseCtx(ctx)\n	}", "	_ = reuse\n	releaseCtx(ctx)")
 	mutant("push-ignored", "client-finish-order", "conn.go", "			c.setLastErr(NewGoAwayError(ProtocolError, \"server pushed with push disabled\"))\n			ReleaseFrameHeader(fr)\n\n			break", "			ReleaseFrameHeader(fr)\n\n			continue")
 	mutant("copyto-misses-framesize", "settings-copy-complete", "settings.go", "	st2.frameSize = st.frameSize\n", "")
@@ -464,7 +464,7 @@ func init() {
 }
 
 func init() {
-	mutant("client-stops-at-last-stream-frame", "client-goaway-drain", "conn.go", "	if err == nil {\n		return false\n	}\n\n	// A header block that does not decode", "	if err == nil {\n		return c.state == connStateClosed && fr.Stream() == c.closeRef\n	}\n\n	// A header block that does not decode")
+	mutant("client-stops-at-last-stream-frame", "client-goaway-drain", "conn.go", "			c.finish(r, fr.Stream(), nil)\n		}\n\n		return false\n	}\n\n	// A header block that does not decode", "			c.finish(r, fr.Stream(), nil)\n		}\n\n		return c.state == connStateClosed && fr.Stream() == c.closeRef\n	}\n\n	// A header block that does not decode")
 	mutant("client-drained-ignores-lower-streams", "client-goaway-drain", "conn.go", "		if id <= c.closeRef {\n			return false\n		}", "		if id == c.closeRef {\n			return false\n		}")
 	mutant("client-goaway-leaves-disclaimed-waiting", "client-goaway-drain", "conn.go", "				c.failAbove(ga.stream)\n", "")
 	mutant("client-fails-promised-streams-too", "retryable-pre-wire", "conn.go", "		if id > last {\n			ids = append(ids, id)\n		}", "		if id >= last {\n			ids = append(ids, id)\n		}")
@@ -508,7 +508,7 @@ func init() {
 	mutant("goaway-last-stream-not-recorded", "client-loop-shape", "conn.go", "				c.closeRef = ga.stream\n", "")
 	mutant("read-loop-leaves-on-both", "client-loop-shape", "conn.go", "		if stop || c.drained() {", "		if stop && c.drained() {")
 	mutant("finished-response-not-resolved", "client-loop-shape", "conn.go", "			c.finish(r, fr.Stream(), nil)\n", "")
-	mutant("failed-response-reported-as-success", "client-loop-shape", "conn.go", "		c.finish(r, fr.Stream(), err)\n", "		c.finish(r, fr.Stream(), nil)\n")
+	mutant("failed-response-reported-as-success", "client-loop-shape", "conn.go", "	c.finish(r, fr.Stream(), err)\n", "	c.finish(r, fr.Stream(), nil)\n")
 	mutant("ctx-not-bound-to-its-connection", "client-loop-shape", "conn.go", "	ctx.conn.Store(c)\n", "")
 	mutant("release-closure-unlocks-twice", "client-loop-shape", "conn.go", "			released = true\n\n			ctx.release()", "			released = false\n\n			ctx.release()")
 	mutant("chunk-sent-again", "client-loop-shape", "conn.go", "		pb.body = pb.body[n:]\n", "")
@@ -644,9 +644,9 @@ func init() {
 	mutant("client-response-ends-on-the-headers-frame", "client-block-state", "conn.go", "		return c.block.endStream && fr.Flags().Has(FlagEndHeaders)", "		return fr.Type() == FrameHeaders && fr.Flags().Has(FlagEndStream)")
 	mutant("client-response-ends-on-any-end-headers", "client-block-state", "conn.go", "		return c.block.endStream && fr.Flags().Has(FlagEndHeaders)", "		return c.block.endStream || fr.Flags().Has(FlagEndHeaders)")
 	mutant("client-end-stream-flag-not-remembered", "client-block-state", "conn.go", "		hb.endStream = fr.Flags().Has(FlagEndStream)\n", "")
-	mutant("client-malformed-response-not-reset", "client-block-state", "conn.go", "	if fr.Type() != FrameResetStream {\n		c.cancelStream(fr.Stream(), ProtocolError)\n	}\n", "")
-	mutant("client-answers-a-reset-with-a-reset", "client-block-state", "conn.go", "	if fr.Type() != FrameResetStream {\n		c.cancelStream(fr.Stream(), ProtocolError)\n	}\n", "	c.cancelStream(fr.Stream(), ProtocolError)\n")
-	mutant("client-carries-on-after-a-compression-error", "client-block-state", "conn.go", "	if errors.As(err, &connErr) && connErr.frameType == FrameGoAway {\n		c.setLastErr(err)\n\n		return true", "	if errors.As(err, &connErr) && connErr.frameType == FrameGoAway {\n		c.setLastErr(err)\n\n		return false")
+	mutant("client-malformed-response-not-reset", "client-block-state", "conn.go", "	if !stop && fr.Type() != FrameResetStream {\n		c.cancelStream(fr.Stream(), ProtocolError)\n	}\n", "")
+	mutant("client-answers-a-reset-with-a-reset", "client-block-state", "conn.go", "	if !stop && fr.Type() != FrameResetStream {\n		c.cancelStream(fr.Stream(), ProtocolError)\n	}\n", "	if !stop {\n		c.cancelStream(fr.Stream(), ProtocolError)\n	}\n")
+	mutant("client-carries-on-after-a-compression-error", "client-block-state", "conn.go", "	stop := errors.As(err, &connErr) && connErr.frameType == FrameGoAway\n	if stop {", "	stop := errors.As(err, &connErr) && connErr.frameType == FrameGoAway && false\n	if stop {")
 }
 
 func init() {
@@ -769,8 +769,8 @@ func init() {
 }
 
 func init() {
-	mutant("cancel-keeps-the-slot", "client-lifecycle-shape", "conn.go", "	if c.takeReq(id) {\n		atomic.AddInt32(&c.openStreams, -1)\n	}\n\n	c.cancelStream(id, StreamCanceled)", "	c.takeReq(id)\n\n	c.cancelStream(id, StreamCanceled)")
-	mutant("cancel-does-not-reset-the-stream", "client-lifecycle-shape", "conn.go", "	c.cancelStream(id, StreamCanceled)\n}", "}")
+	mutant("cancel-keeps-the-slot", "client-lifecycle-shape", "conn.go", "	if c.takeReq(id) {\n		atomic.AddInt32(&c.openStreams, -1)\n	}\n}", "	c.takeReq(id)\n}")
+	mutant("cancel-does-not-reset-the-stream", "client-lifecycle-shape", "conn.go", "	c.cancelStream(id, StreamCanceled)\n\n	// Drop the stream here", "	// Drop the stream here")
 	mutant("cancel-keeps-the-pending-body", "client-lifecycle-shape", "conn.go", "	// resetting, and the buffer stops being ours as soon as RoundTrip returns.\n	c.deletePending(id)\n", "	// resetting, and the buffer stops being ours as soon as RoundTrip returns.\n")
 	mutant("cancel-resets-stream-zero", "client-lifecycle-shape", "conn.go", "	id := atomic.LoadUint32(&ctx.streamID)\n	if id == 0 {", "	id := atomic.LoadUint32(&ctx.streamID)\n	if id == 1<<31 {")
 	mutant("silent-server-never-given-up", "client-lifecycle-shape", "conn.go", "		if !c.disableAcks && atomic.LoadInt32(&c.unacks) >= 3 {", "		if !c.disableAcks && atomic.LoadInt32(&c.unacks) >= 3 && c.disableAcks {")
@@ -887,4 +887,20 @@ func init() {
 
 func init() {
 	mutant("hpack-reset-keeps-the-table", "reset-completeness", "hpack.go", "func (hp *HPACK) Reset() {\n	hp.releaseDynamic()\n", "func (hp *HPACK) Reset() {\n")
+}
+
+func init() {
+	allMutants = append(allMutants, Mutant{Name: "cancel-frees-the-slot-before-the-reset", Rule: "slot-released-with-the-reset", Subs: []Subst{
+		{File: "conn.go", Old: "	c.cancelStream(id, StreamCanceled)\n\n	// Drop the stream here", New: "	// Drop the stream here"},
+		{File: "conn.go", Old: "	if c.takeReq(id) {\n		atomic.AddInt32(&c.openStreams, -1)\n	}\n}", New: "	if c.takeReq(id) {\n		atomic.AddInt32(&c.openStreams, -1)\n	}\n\n	c.cancelStream(id, StreamCanceled)\n}"},
+	}})
+	allMutants = append(allMutants, Mutant{Name: "finish-frees-the-slot-before-the-reset", Rule: "slot-released-with-the-reset", Subs: []Subst{
+		{File: "conn.go", Old: "	if c.deletePending(stream) && err == nil {\n		c.cancelStream(stream, StreamCanceled)\n	}\n\n	// Drop the stream before resolving", New: "	// Drop the stream before resolving"},
+		{File: "conn.go", Old: "		atomic.AddInt32(&c.openStreams, -1)\n	}\n\n	r.markFinished()", New: "		atomic.AddInt32(&c.openStreams, -1)\n	}\n\n	if c.deletePending(stream) && err == nil {\n		c.cancelStream(stream, StreamCanceled)\n	}\n\n	r.markFinished()"},
+	}})
+	allMutants = append(allMutants, Mutant{Name: "dispatch-frees-the-slot-before-the-reset", Rule: "slot-released-with-the-reset", Subs: []Subst{
+		{File: "conn.go", Old: "	if !stop && fr.Type() != FrameResetStream {\n		c.cancelStream(fr.Stream(), ProtocolError)\n	}\n\n	c.finish(r, fr.Stream(), err)\n", New: "	c.finish(r, fr.Stream(), err)\n\n	if !stop && fr.Type() != FrameResetStream {\n		c.cancelStream(fr.Stream(), ProtocolError)\n	}\n"},
+	}})
+	mutant("request-overtakes-the-queue", "slot-released-with-the-reset", "conn.go", "			err := c.flushOut()\n			if err == nil {\n				err = c.writeRequest(ctx)\n			}\n", "			err := c.writeRequest(ctx)\n")
+	mutant("flush-writes-one-frame-only", "slot-released-with-the-reset", "conn.go", "			if err != nil {\n				return err\n			}\n		default:\n			return nil", "			return err\n		default:\n			return nil")
 }
